@@ -409,6 +409,7 @@ def cast_elem(ex, v, dtype: VDtype):
 
 
 def arr_setitem(ex, obj, idx, val):
+    val = ex.resolve(val)          # an optional value is decided on this path before it is stored
     c = cell(ex, obj)
     old = c.elem if not (c.tag and c.tag[0] == "view") else (lambda ix: _view_elem(ex, c.tag[1], c.tag[2], ix))
     if ex.is_arr(idx):          # a[mask] = v
